@@ -549,6 +549,14 @@ class EndpointResponseHandlerGenerator:
                 writer.write_line("yield chunk")
                 writer.dedent()
                 writer.write_line("return  # Explicit return for async generator")
+            elif self._is_ndjson_stream(strategy):
+                # Newline-delimited JSON: one JSON document per line
+                context.add_import(f"{context.core_package_name}.streaming_helpers", "iter_ndjson")
+                writer.write_line("async for item in iter_ndjson(response):")
+                writer.indent()
+                writer.write_line("yield item")
+                writer.dedent()
+                writer.write_line("return  # Explicit return for async generator")
             else:
                 # Handle other streaming types
                 context.add_plain_import("json")
@@ -581,6 +589,16 @@ class EndpointResponseHandlerGenerator:
         else:
             context.add_import("typing", "cast")
             writer.write_line(f"return cast({strategy.return_type}, {data_expr})")
+
+    def _is_ndjson_stream(self, strategy: ResponseStrategy) -> bool:
+        """Check if a streaming response is newline-delimited JSON (a declared event stream takes precedence)."""
+        if not strategy.response_ir or not strategy.response_ir.content:
+            return False
+
+        content_types = list(strategy.response_ir.content.keys())
+        if any("event-stream" in ct for ct in content_types):
+            return False
+        return any(ct.lower() == "application/x-ndjson" for ct in content_types)
 
     def _get_response_schema(self, response_ir: IRResponse) -> IRSchema | None:
         """Extract the schema from a response IR."""
